@@ -116,6 +116,13 @@ func (c *c16Checker) judge(node *c16Node, peer *c16Peer, h *HostInfo, rules []c1
 
 	if v.GateOpen {
 		r.Count("gate_open_cell", 1)
+	} else if got != v.Allow && v.Allow != v.AllowAnyOverrides && got == v.AllowAnyOverrides {
+		// Open cell, counted and not judged: a `groups` list that mixes "any" with literal groups. The documentation
+		// defines `any` for `group` and says listed groups are AND'd, but does not say what "any" means inside a
+		// multi-value list; the firewall reads the whole rule as any-host and says so in a load-time warning
+		// ("This rule will ignore the other groups specified"). Both readings are evaluated by the reference; the
+		// verdict must agree with one of them.
+		r.Count("groups_list_mixing_any_with_literals_read_as_any(not judged)", 1)
 	} else if got != v.Allow {
 		key := "C16/verdict-mismatch"
 		switch {
